@@ -4,8 +4,9 @@
 # Writes /verif/seeded/<id>/{patch.diff,demo.rs,confirm.json}.  Never touches /repo's working tree.
 set -u
 ID=$1; PATCH=$2; DEMO=$3
-WT=/tmp/conf/wt
-export CARGO_TARGET_DIR=/tmp/conf/target CARGO_NET_OFFLINE=true
+W=${CONF_WORKER:-0}
+WT=/tmp/conf/wt$W
+export CARGO_TARGET_DIR=/tmp/conf/target${CONF_WORKER:-0} CARGO_NET_OFFLINE=true
 if [ ! -d $WT ]; then git -C /repo worktree add --detach $WT HEAD -q || exit 2; fi
 cd $WT || exit 2
 git checkout -q --detach $(git -C /repo rev-parse HEAD) 2>/dev/null
